@@ -430,3 +430,51 @@ func verifParents(sig int) {
 func VerifHarness_C01_rt_parents() { verifParents(0) }
 func VerifHarness_C02_rt_parents() { verifParents(1) }
 func VerifHarness_C03_rt_parents() { verifParents(2) }
+
+// VerifHarness_rt_attrs32: the 32-bit attribute tables (span events, span links, data points, exemplars) with
+// 0..ATTRS attributes whose keys are symbolic (one byte or EMPTY) and whose values are of EVERY type (Str, Int,
+// Double, Bool, Bytes, one-element Slice/Map, Empty) - the same value space the 16-bit tables get in rt_attrs.
+// WHERE = 0: one event, 1: one link, 2: one gauge data point, 3: one exemplar.
+func verifAttrs32(where int) {
+	p, c := verifProducer(), verifConsumer()
+	n := rt.Param("ATTRS")
+	switch where {
+	case 0, 1:
+		td := ptrace.NewTraces()
+		sp := td.ResourceSpans().AppendEmpty().ScopeSpans().AppendEmpty().Spans().AppendEmpty()
+		sp.SetSpanID(pcommon.SpanID{1, 1})
+		sp.SetTraceID(pcommon.TraceID{1})
+		sp.SetName("span")
+		if where == 0 {
+			ev := sp.Events().AppendEmpty()
+			ev.SetName("e")
+			ev.SetTimestamp(pcommon.Timestamp(150))
+			verifAttrs(ev.Attributes(), "ev.attr", n, 255)
+		} else {
+			lk := sp.Links().AppendEmpty()
+			lk.SetTraceID(pcommon.TraceID{2})
+			lk.SetSpanID(pcommon.SpanID{3})
+			verifAttrs(lk.Attributes(), "lk.attr", n, 255)
+		}
+		verifRoundTrip(p, c, td, "C01.rt")
+	default:
+		md := pmetric.NewMetrics()
+		m := md.ResourceMetrics().AppendEmpty().ScopeMetrics().AppendEmpty().Metrics().AppendEmpty()
+		m.SetName("g")
+		dp := m.SetEmptyGauge().DataPoints().AppendEmpty()
+		dp.SetTimestamp(pcommon.Timestamp(100))
+		dp.SetIntValue(1)
+		if where == 2 {
+			verifAttrs(dp.Attributes(), "dp.attr", n, 255)
+		} else {
+			ex := dp.Exemplars().AppendEmpty()
+			ex.SetTimestamp(pcommon.Timestamp(50))
+			ex.SetIntValue(7)
+			verifAttrs(ex.FilteredAttributes(), "ex.attr", n, 255)
+		}
+		verifRoundTripMetrics(p, c, md, "C03.rt")
+	}
+}
+
+func VerifHarness_C01_rt_attrs32() { verifAttrs32(rt.Param("WHERE")) }
+func VerifHarness_C03_rt_attrs32() { verifAttrs32(rt.Param("WHERE")) }
